@@ -122,7 +122,9 @@ Definition g_conn (c : gcircuit) : bool :=
   Nat.eqb (gdde c) 0 &&
   forallb (fun e => match gd e with
                     | Some (d, Some s) => Nat.leb 1 (Z.to_nat (round_half_even (sq (d / s))))
-                    | _ => false end) (gedges c).
+                    | Some (_, None) => false
+                    | None => true      (* a tap: an undelayed edge inside the source node *)
+                    end) (gedges c).
 
 (* the augmented ODE system: state = node values xs ++ one chain per edge (zs, in edge order);
    ps = (order, rate) per edge, srcs = the node each edge's chain is driven by *)
@@ -188,5 +190,26 @@ Definition g_above_step (c : gcircuit) : bool :=
 Definition g_rates_exact (c : gcircuit) : bool :=
   forallb (fun e => Qceqb (chain_rate c e) (slot_rate c e)) (gedges c).
 Definition g_no_scalar_shared_chain (c : gcircuit) : bool := negb (gcrashes c).
+(* D101 (open; see Ring.g_no_tap_on_buffered): a sibling operator of a buffered source operator reads `x_buffered`.  A tap is modelled
+   as an edge without delay of weight 1 to an extra integrator node; the defective read is not modelled, the guard delimits the class. *)
+Definition dgedge : gedge := mkG 0 0 0%Qc None.
+Definition g_no_tap_on_buffered (taps : list nat) (c : gcircuit) : bool :=
+  fixed_tap || forallb (fun i => negb (gadd_delay c (gkey c (gsrc (nth i (gedges c) dgedge))))) taps.
+(* D102 (open): a delay that stays in time units (spread, or dde_approx) but is written as a Python int takes the integer branch of
+   the add_delay test (max_delay > 1, meant for step counts): `delay: 1, spread: 0.5` is silently ignored unless a float-valued or
+   larger delay shares the source variable.  `ints` = positions of the edges whose delay is passed as an int.  Not modelled by Impl;
+   the guard (conservative: no int-passed delay <= 1) delimits the class; repaired by fixes/fix_D102.diff (float(delay)). *)
+Definition fixed_int_delay : bool := false.
+Definition g_no_int_unit_delay (ints : list nat) (c : gcircuit) : bool :=
+  fixed_int_delay || forallb (fun i => match gd (nth i (gedges c) dgedge) with
+                                       | Some (d, _) => negb (Qle_bool (this d) 1)
+                                       | None => true end) ints.
+(* D103 (open; see Ring.g_uniform_keys): in one vectorized edge group an edge with a `spread` entry next to one without leaves the
+   group's delay / spread lists out of step (silently wrong kernels).  Not modelled; the guard delimits the class. *)
+Definition g_uniform_keys (c : gcircuit) : bool :=
+  fixed_group_keys || negb (gvec c) ||
+  forallb (fun e => forallb (fun e' => negb (Nat.eqb (gkey c (gsrc e)) (gkey c (gsrc e')) && Nat.eqb (gkey c (gtgt e)) (gkey c (gtgt e')) &&
+                                              Bool.eqb (g_is_delayed e) (g_is_delayed e')) ||
+                                       Bool.eqb (has_spread e) (has_spread e')) (gedges c)) (gedges c).
 Definition gguards (c : gcircuit) : bool :=
   g_all_spread c && g_no_undelayed_kernel c && g_above_step c && g_rates_exact c && g_no_scalar_shared_chain c.
